@@ -420,12 +420,14 @@ def run(ctx):
                     'dispatch/F1/F3 theorems closed under the global context',
                     'Interval tactic (uses primitive floats/ints) for the generated F2 correspondence goals']
     vlib.audit(ctx)
-    if not vlib.ensure_static(ctx, ['theories/Props/C01.vo', 'theories/Props/C01b.vo', 'theories/Props/C01c.vo', 'theories/Model/DispatchZ.vo']):
+    if not vlib.ensure_static(ctx, ['theories/Props/C01.vo', 'theories/Props/C01b.vo', 'theories/Props/C01c.vo', 'theories/Props/C01d.vo',
+                                    'theories/Model/EigAdjExec.vo', 'theories/Model/DispatchZ.vo']):
         return
     vlib.check_props(ctx)
     vlib.check_props(ctx, 'theories/Props/C01b.v')
     import C01_overhang
     C01_overhang.check_props_c(ctx)          # vlib.check_props(ctx, 'theories/Props/C01c.v') + module-wise coqchk in the thorough tier
+    vlib.check_props(ctx, 'theories/Props/C01d.v')      # EigenSolve eigenvector / eigenvalue sensitivities (mathcomp)
     quick = ctx.quick()
     broken = False
     # (a) dispatch
@@ -491,6 +493,9 @@ def run(ctx):
                       dict(label=labels[idx], coq=checks[idx][:3000]))
     # (b'') OverhangFilter: model of _sensitivity (Model/OverhangAdj.v, theorems Props/C01c.v) against the implementation
     C01_overhang.run_part(ctx, pym)
+    # (b''') EigenSolve: _dense_sens / _sparse_eigvec_sens / _sparse_eigval_sens (Model/EigAdj.v, theorems Props/C01d.v)
+    import C01_eig
+    C01_eig.run_part(ctx, pym)
     # (c) F2 interval goals
     goals, glabels = f2_goals(ctx, pym, 40 if quick else 400)
     fails = run_goals(ctx, 'f2', HEADER_F2, goals, glabels)
